@@ -15,6 +15,7 @@ the twin must be emitted, in the same order, nothing else.
 import itertools
 
 from ..common import import_lazy_dataset, exc_sig, rng_for
+from ..vias import VIAS, through
 
 PROPERTY = 'C17'
 LEVEL = 'exploration'
@@ -49,7 +50,11 @@ def grid_points():
 
 
 def run_once(ld, lens, p, drop, via):
-    """One iteration.  Returns (events, batches, buckets_completed_flags)."""
+    """One iteration.  Returns (events, batches, buckets_completed_flags).
+    `via` is 'class' | 'method' | 'strkeys', optionally followed by
+    ':<consumption path>' (vlib/vias.py): the limits are parameters of the
+    stage and must hold for every way of consuming it."""
+    via, _, path = via.partition(':')
     core = ld.core
     log = []
     buckets = []
@@ -89,6 +94,8 @@ def run_once(ld, lens, p, drop, via):
                 for e in examples:
                     yield pull(e)
         ds = core.DynamicBucketDataset(Src(), B, **kw)
+    if path:
+        ds = through(ld, ds, path)
     it = iter(ds)
     batches = []
     while True:
@@ -190,6 +197,7 @@ def check(ld, lens, p, via, res):
     nontrivial = bool(limit) or any(len(b) >= 2 for b, _ in batches)
     res.case((tuple(lens), tuple(p.items()), via), nontrivial)
     res.count('batches_checked', len(batches))
+    res.seen('consumption_paths', via)
     if any(f is None for _, f in batches):
         res.violation('batch-from-unknown-bucket', case,
                       {'batches': [b for b, _ in batches]}, sig={'mode': 'nodrop'})
@@ -260,8 +268,10 @@ def run_shard(spec, res):
                     cnt += 1
                     if cnt % spec['mod'] != spec['rem']:
                         continue
-                    check(ld, lens, p, 'class' if cnt % 5 else
-                          ('method' if cnt % 10 else 'strkeys'), res)
+                    via = 'class' if cnt % 5 else ('method' if cnt % 10 else 'strkeys')
+                    if via != 'class':
+                        via += ':' + VIAS[(cnt // 10) % len(VIAS)]
+                    check(ld, lens, p, via, res)
         res.sample({'lens': [1, 5, 2, 8], 'params': pts[len(pts) // 3]})
     elif spec['what'] == 'sampled':
         for L in range(spec['L0'] + 1, spec['L1'] + 1):
@@ -272,7 +282,10 @@ def run_shard(spec, res):
         for _ in range(spec['nrand']):
             lens = [rng.choice(ALPHABET + (4, 6, 7, 13)) for _ in range(30)]
             p = rng.choice(pts)
-            check(ld, lens, p, rng.choice(('class', 'method')), res)
+            via = rng.choice(('class', 'method', 'method', 'strkeys'))
+            if via != 'class':
+                via += ':' + rng.choice(VIAS)
+            check(ld, lens, p, via, res)
         res.sample({'lens': lens, 'params': p})
 
 
